@@ -171,7 +171,7 @@ pub fn split_at_field_boundaries(doc: &Doc, max: usize) -> Option<Doc> {
     let mut cuts: Vec<usize> = inner.boundaries.iter().copied().filter(|&c| c >= inner.header_end && c > 0 && c < p.len()).collect();
     cuts.sort_unstable();
     cuts.dedup();
-    cuts.truncate(max);
+    cuts.truncate(max.min(32));
     if cuts.is_empty() {
         return None;
     }
